@@ -44,8 +44,18 @@ type Snapshot struct {
 const NoncePrefix = ".verif-nonce"
 
 // Snap walks the tree below root with ReadDir/Lstat/ReadFile/Readlink/SameFile/ToSysStat.
-func Snap(v avfs.VFS, root string, o SnapOpts) *Snapshot {
-	s := &Snapshot{}
+func Snap(v avfs.VFS, root string, o SnapOpts) (s *Snapshot) {
+	s = &Snapshot{}
+	defer func() {
+		// under the sequential lock hook a lock left behind by an earlier call is a logical deadlock of the walk
+		if x := recover(); x != nil {
+			if d, ok := x.(DeadlockPanic); ok {
+				s.Problems = append(s.Problems, "the walk of the tree blocks forever on a lock nobody holds any more: "+d.What)
+				return
+			}
+			panic(x)
+		}
+	}()
 	if o.MaxNodes == 0 {
 		o.MaxNodes = 400
 	}
